@@ -655,6 +655,31 @@ func (g *G) cmp(a, b *lv, op string) *smt.Term {
 // handled by the caller) plus an infinitesimal sign term.
 func (g *G) cmpFinite(a, b *lv, op string) *smt.Term {
 	c := g.c
+	// a huge constant is above (below) every value the grid can produce
+	if a.noArith || b.noArith {
+		if a.noArith && b.noArith {
+			g.fail("comparison of two huge constants")
+		}
+		hugeLeft := a.noArith
+		h := a
+		if !hugeLeft {
+			h = b
+		}
+		pos := h.k.Int() > 0
+		// left is (+huge): a<b false, a<=b false; left is (-huge): true
+		var lt bool
+		if hugeLeft {
+			lt = !pos
+		} else {
+			lt = pos
+		}
+		switch op {
+		case "lt", "le":
+			return c.BoolC(lt)
+		default:
+			return c.False()
+		}
+	}
 	// square roots: compare radicands / squares
 	if a.kind == kRS || b.kind == kRS {
 		return g.cmpSqrt(a, b, op)
